@@ -18,7 +18,7 @@ RULE = ("case = generated enum with renames / duplicate names / permuted declara
         "non-trivial = (non-identity declaration order or a rename present) and a two-sided history; distinct by "
         "(repr, discriminants, names, order, configuration)")
 
-PROFILE = S.profile(renames=0.6, dups=0.15, orders=["identity", "reverse", "perm", "perm"])
+PROFILE = S.profile(renames=0.6, dups=0.15, orders=["identity", "reverse", "perm", "perm", "by_name"])
 
 
 @st.composite
